@@ -23,22 +23,27 @@ AmtEs == { AE("IBC", "channel-0", "CCTP", "0", "uusdc", 10, 9), AE("IBC", "chann
            AE("IBC", "channel-0", "CCTP", "0", "uusdc", 0, 0), AE("IBC", "channel-0", "CCTP", "0", "uusdc", -1, 5),
            AE("IBC", "channel-0", "CCTP", "0", "", 1, 1), AE("NIL", "", "CCTP", "0", "uusdc", 1, 1),
            AE("IBC", "channel-0", "NIL", "", "uusdc", 1, 1), AE("IBC", "bad", "CCTP", "0", "uusdc", 1, 1),
-           AE("IBC", "channel-0", "UNSUPPORTED", "0", "uusdc", 1, 1) }
+           AE("IBC", "channel-0", "UNSUPPORTED", "0", "uusdc", 1, 1),
+           AE("IBC", "channel-0", "INT", "noble:grand-1", "uusdc", 2, 1), AE("INT", "a:b:c", "INT", "x", "ustake", 3, 3) }
 CE(sp, sc, dp, dc, n) == [sp |-> sp, sc |-> sc, dp |-> dp, dc |-> dc, n |-> n]
 CntEs == { CE("IBC", "channel-0", "CCTP", "0", 3), CE("IBC", "channel-0", "CCTP", "0", 1), CE("IBC", "channel-1", "INT", "noble", 2),
-           CE("IBC", "channel-0", "CCTP", "0", 0), CE("NIL", "", "CCTP", "0", 1), CE("IBC", "channel-0", "HYP", "bad", 1) }
+           CE("IBC", "channel-0", "CCTP", "0", 0), CE("NIL", "", "CCTP", "0", 1), CE("IBC", "channel-0", "HYP", "bad", 1),
+           CE("IBC", "channel-1", "INT", "noble:grand-1", 4) }
 
 Docs == { [DefG EXCEPT !.pp = x] : x \in PPs } \cup { [DefG EXCEPT !.pcc = x] : x \in PCCs } \cup { [DefG EXCEPT !.pa = x] : x \in PAs }
         \cup { [DefG EXCEPT !.amts = x] : x \in Lists2(AmtEs) } \cup { [DefG EXCEPT !.cnts = x] : x \in Lists2(CntEs) }
         \cup { [DefG EXCEPT !.params = v] : v \in {0, 1, 64, -1} }
         \cup { [pp |-> <<"CCTP", "INT">>, pcc |-> <<CC("HYP", <<"1">>), CC("CCTP", <<"0">>)>>, pa |-> <<"FEE">>,
                 amts |-> <<AE("IBC", "channel-0", "CCTP", "0", "uusdc", 10, 9), AE("IBC", "channel-1", "INT", "noble", "ustake", 7, 0)>>,
-                cnts |-> <<CE("IBC", "channel-0", "CCTP", "0", 3)>>, params |-> 64] }
+                cnts |-> <<CE("IBC", "channel-0", "CCTP", "0", 3)>>, params |-> 64],
+               \* a protocol paused together with one of its own counterparties (both must survive initialisation)
+               [DefG EXCEPT !.pp = <<"CCTP">>, !.pcc = <<CC("CCTP", <<"0">>), CC("HYP", <<"1">>)>>],
+               [DefG EXCEPT !.pp = <<"HYP", "INT">>, !.pcc = <<CC("HYP", <<"1">>), CC("HYP", <<"2">>), CC("INT", <<"n","o","b","l","e">>)>>, !.pa = <<"FEE", "SWAP">>] }
 Probes == { Xfer(0, "uusdc", 1000, fw, <<FeeAct(<<Bps(100, "F1")>>)>>) : fw \in { FwCCTP(0, "MINT_A", "NONE"), FwHYP("T1", 1, "R_A"), FwINT("U") } }
 MCAlphabet == { GenDocIn(g) : g \in Docs } \cup Probes \cup {ReimportIn}
 SmallAlphabet == MCAlphabet
 
-StepProps == [][ Prop_C17b(last') /\ Prop_C17(last') /\ Prop_C08(last') /\ Prop_C09(last') /\ Prop_C12(last') /\ Prop_C18(last') ]_vars
+StepProps == [][ Prop_C17c(last') /\ Prop_C17b(last') /\ Prop_C17(last') /\ Prop_C08(last') /\ Prop_C09(last') /\ Prop_C12(last') /\ Prop_C18(last') ]_vars
 Depth == TLCGet("level") <= MaxDepth
 View == st
 =============================================================================
